@@ -28,6 +28,7 @@ import (
 	"encoding/base64"
 	"encoding/json"
 	"fmt"
+	"math/big"
 	"os"
 	"sort"
 	"strings"
@@ -438,8 +439,12 @@ func (w *c18World) runCase(cs c18Case) c18Obs {
 	return obs
 }
 
-func mustBig(s string) *sdkmath.Int {
-	return nil
+func mustBig(s string) *big.Int {
+	b, ok := new(big.Int).SetString(s, 10)
+	if !ok {
+		return big.NewInt(0)
+	}
+	return b
 }
 
 func TestC18(t *testing.T) {
